@@ -20,8 +20,10 @@ import (
 	"encoding/json"
 	"fmt"
 	"io"
+	"net"
 	"os"
 	"path/filepath"
+	"runtime"
 	"sort"
 	"strings"
 	"sync"
@@ -54,6 +56,14 @@ type c19Scn struct {
 	Rx       c19Dir `json:"rx"`
 	DurS     int    `json:"dur_s"`
 	Seed     int64  `json:"seed"`
+	// Timeout: the limited sessions have a 3 s inactivity time-out; session 0 carries the tx pattern, on every other
+	// session the peer opens a stream, writes once and closes it after 1 s, so those sessions are closed by
+	// checkTimeout (closing notice through send) while session 0 keeps the bucket empty
+	Timeout bool `json:"timeout,omitempty"`
+	// Race (real parallelism): after an idle period (full buckets) M senders of the user, released by a spin barrier,
+	// each send one frame of 0.8 x burst; Rounds times. Tx/Rx patterns are ignored.
+	Race   int `json:"race_senders,omitempty"`
+	Rounds int `json:"rounds,omitempty"`
 }
 
 type c19Ev struct {
@@ -246,8 +256,12 @@ func c19RunScenario(sc c19Scn) c19Outcome {
 				}
 				obfs.payloadCipher = c19AEAD{AEAD: obfs.payloadCipher, rec: rec}
 			}
+			idle := 1000000 * time.Second
+			if sc.Timeout && wrap {
+				idle = 3 * time.Second
+			}
 			return MakeSession(uint32(100+s), SessionConfig{Obfuscator: obfs, Valve: v, MsgOnWireSizeLimit: 16401,
-				InactivityTimeout: 1000000 * time.Second}), nil
+				InactivityTimeout: idle}), nil
 		}
 		lim, err := mk(true, valve)
 		if err != nil {
@@ -286,7 +300,11 @@ func c19RunScenario(sc c19Scn) c19Outcome {
 				go func(k int) {
 					defer wgAll.Done()
 					defer writers.Add(-1)
-					txLoad.write(st, txLoad.patternOf(s, k), lim.maxStreamUnitWrite, kit.NewRng(sc.Seed*7919+int64(s*64+k)), false)
+					pat := txLoad.patternOf(s, k)
+					if sc.Timeout && s > 0 {
+						pat = "idle"
+					}
+					txLoad.write(st, pat, lim.maxStreamUnitWrite, kit.NewRng(sc.Seed*7919+int64(s*64+k)), false)
 				}(k)
 			}
 		}(s, lim)
@@ -304,6 +322,12 @@ func c19RunScenario(sc c19Scn) c19Outcome {
 				defer writers.Add(-1)
 				pat := rxLoad.patternOf(s, k)
 				rng := kit.NewRng(sc.Seed*104729 + int64(s*64+k))
+				if sc.Timeout && s > 0 { // one message, then the stream goes: the limited session is left without streams
+					rxLoad.write(st, "idle", peer.maxStreamUnitWrite, rng, true)
+					time.Sleep(time.Second)
+					st.Close()
+					return
+				}
 				rxLoad.write(st, pat, peer.maxStreamUnitWrite, rng, true)
 			}(s, k)
 		}
@@ -311,6 +335,11 @@ func c19RunScenario(sc c19Scn) c19Outcome {
 	time.Sleep(dur)
 	rec.endBacklog("tx")
 	rec.endBacklog("rx")
+	// the user's sessions are closed by the limited side while its writers are in the middle of their writes and
+	// (backlogged patterns) the bucket is empty: the closing notices are bytes sent to the user like any others
+	for _, l := range limited {
+		l.Close()
+	}
 	stop.Store(true)
 	for writers.Load() > 0 { // a writer inside txWait finishes its message first (virtual time)
 		time.Sleep(10 * time.Millisecond)
@@ -318,9 +347,6 @@ func c19RunScenario(sc c19Scn) c19Outcome {
 	time.Sleep(100 * time.Millisecond) // what is in flight reaches the other side
 	for _, p := range peers {
 		p.Close()
-	}
-	for _, l := range limited {
-		l.Close()
 	}
 	for _, l := range links {
 		l.End(0).Close()
@@ -330,6 +356,170 @@ func c19RunScenario(sc c19Scn) c19Outcome {
 	// Cloak's own goroutines (deplex inside rxWait, a Close inside txWait) must have left before the bubble's
 	// main goroutine returns, and the virtual clock only runs while it is alive: the debt of a bucket is at
 	// most (connections x one record) / rate < 2 minutes
+	time.Sleep(20 * time.Minute)
+	synctest.Wait()
+	rec.mu.Lock()
+	defer rec.mu.Unlock()
+	out := c19Outcome{Evs: rec.evs, Bytes: map[string]int64{}, AppBytes: map[string]int64{"limited": appLim.Load(), "peer": appPeer.Load()}}
+	for _, e := range rec.evs {
+		if e.kind == "pass" {
+			out.Bytes[e.dir] += int64(e.n)
+		}
+	}
+	return out
+}
+
+// c19RunRace: the real-parallelism stage. The bubble's goroutines run on all processors; a spin barrier lines the
+// senders up (nobody is durably blocked meanwhile, so the virtual clock stands still), then each sends ONE frame of
+// 0.8 x burst into full buckets: tx senders call Stream.Write on their own stream (even rounds) or hand a ready-made
+// frame to switchboard.send (odd rounds: no encryption between barrier and limiter); rx senders are peer goroutines
+// that each put one ready-made record on their own connection, so that the limited side's deplex goroutines reach
+// rxWait together. Exactly one frame fits the bucket; the others have to wait their turn. The recorded events go
+// through the same oracle and the same TLC trace specification as every other scenario.
+func c19RunRace(sc c19Scn) c19Outcome {
+	rec := &c19Rec{t0: time.Now(), blOn: map[string]bool{}, blEnd: map[string]bool{}}
+	valve := MakeValve(sc.Rx.Rate, sc.Tx.Rate)
+	vn := kit.NewVNet()
+	vn.Tap = func(ev kit.TapEvent) {
+		if ev.Kind == "w" && ev.From == 1 && len(ev.Data) > 5 {
+			rec.add("pass", "tx", len(ev.Data)-5)
+		}
+	}
+	var wgAll sync.WaitGroup
+	var appLim, appPeer atomic.Int64
+	drain := func(st io.Reader, cnt *atomic.Int64) {
+		defer wgAll.Done()
+		buf := make([]byte, 1<<16)
+		for {
+			n, err := st.Read(buf)
+			cnt.Add(int64(n))
+			if err != nil {
+				return
+			}
+		}
+	}
+	acceptAll := func(sesh *Session, cnt *atomic.Int64) {
+		defer wgAll.Done()
+		for {
+			conn, err := sesh.Accept()
+			if err != nil {
+				return
+			}
+			wgAll.Add(1)
+			go drain(conn, cnt)
+		}
+	}
+	m := sc.Race
+	var limited, peers []*Session
+	var peerConns []net.Conn // one per connection, the peer's end as its switchboard sees it
+	var peerOf []*Session
+	var links []*kit.VLink
+	for s := 0; s < sc.Sessions; s++ {
+		var key [32]byte
+		copy(key[:], kit.NewRng(sc.Seed*131+int64(s)).Bytes(32))
+		obfsL, _ := MakeObfuscator(sc.Method, key)
+		obfsP, _ := MakeObfuscator(sc.Method, key)
+		if obfsL.payloadCipher == nil {
+			return c19Outcome{Err: "race stage needs an AEAD"}
+		}
+		obfsL.payloadCipher = c19AEAD{AEAD: obfsL.payloadCipher, rec: rec}
+		lim := MakeSession(uint32(100+s), SessionConfig{Obfuscator: obfsL, Valve: valve, MsgOnWireSizeLimit: 16401, InactivityTimeout: 1000000 * time.Second})
+		peer := MakeSession(uint32(100+s), SessionConfig{Obfuscator: obfsP, Valve: UNLIMITED_VALVE, MsgOnWireSizeLimit: 16401, InactivityTimeout: 1000000 * time.Second})
+		limited, peers = append(limited, lim), append(peers, peer)
+		for c := 0; c < sc.Conns; c++ {
+			l := vn.NewLink(false, false)
+			links = append(links, l)
+			pc := common.NewTLSConn(l.End(0))
+			peer.AddConnection(pc)
+			lim.AddConnection(common.NewTLSConn(l.End(1)))
+			peerConns, peerOf = append(peerConns, pc), append(peerOf, peer)
+		}
+		wgAll.Add(2)
+		go acceptAll(lim, &appLim)
+		go acceptAll(peer, &appPeer)
+	}
+	txFrame := int(sc.Tx.Rate * 8 / 10)
+	rxFrame := int(sc.Rx.Rate * 8 / 10)
+	// tx senders: stream i lives on session i % S and is opened by the limited side
+	txStreams := make([]*Stream, m)
+	for i := range txStreams {
+		st, err := limited[i%len(limited)].OpenStream()
+		if err != nil {
+			return c19Outcome{Err: err.Error()}
+		}
+		txStreams[i] = st
+	}
+	payload := kit.NewRng(sc.Seed).Bytes(16400)
+	for r := 0; r < sc.Rounds; r++ {
+		// idle until both buckets are full again: the debt of a round is at most m frames
+		time.Sleep(time.Duration(m)*time.Second + 1500*time.Millisecond)
+		var arrived, gate atomic.Int32
+		var round sync.WaitGroup
+		spin := func() {
+			arrived.Add(1)
+			for gate.Load() == 0 {
+				runtime.Gosched()
+			}
+		}
+		nrx := m
+		if nrx > len(peerConns) {
+			nrx = len(peerConns)
+		}
+		for i := 0; i < m; i++ {
+			round.Add(1)
+			go func(i int) {
+				defer round.Done()
+				st := txStreams[i]
+				if r%2 == 0 {
+					spin()
+					st.Write(payload[:txFrame-frameHeaderLength-16])
+					return
+				}
+				// a frame of a stream of its own, encrypted before the barrier; what follows is switchboard.send alone
+				sesh := limited[i%len(limited)]
+				buf := make([]byte, 16401)
+				f := &Frame{StreamID: uint32(5000 + i), Seq: uint64(5 + r/2), Payload: payload[:txFrame-frameHeaderLength-16]}
+				n, err := sesh.obfuscate(f, buf, 0)
+				if err != nil {
+					spin()
+					return
+				}
+				var assigned net.Conn
+				spin()
+				sesh.sb.send(buf[:n], &assigned)
+			}(i)
+		}
+		for i := 0; i < nrx; i++ {
+			round.Add(1)
+			go func(i int) {
+				defer round.Done()
+				buf := make([]byte, 16401)
+				f := &Frame{StreamID: uint32(7000 + i), Seq: uint64(r), Payload: payload[:rxFrame-frameHeaderLength-16]}
+				n, err := peerOf[i].obfuscate(f, buf, 0)
+				spin()
+				if err == nil {
+					peerConns[i].Write(buf[:n])
+				}
+			}(i)
+		}
+		for int(arrived.Load()) < m+nrx {
+			runtime.Gosched()
+		}
+		gate.Store(1)
+		round.Wait()
+	}
+	time.Sleep(time.Duration(m)*time.Second + 2*time.Second)
+	for _, l := range limited {
+		l.Close()
+	}
+	for _, p := range peers {
+		p.Close()
+	}
+	for _, l := range links {
+		l.End(0).Close()
+		l.End(1).Close()
+	}
+	wgAll.Wait()
 	time.Sleep(20 * time.Minute)
 	synctest.Wait()
 	rec.mu.Lock()
@@ -505,6 +695,24 @@ func c19Scenarios(seed int64, thorough bool) []c19Scn {
 		{Sessions: 2, Conns: 2, Streams: 2, Link: "msg", Method: EncryptionMethodChaha20Poly1305, Tx: c19Dir{100000, B, 1400}, Rx: c19Dir{20000, B, 100}, DurS: 10},
 		{Sessions: 1, Conns: 3, Streams: 2, Link: "tls", Method: EncryptionMethodAES128GCM, Tx: c19Dir{20000, I, 100}, Rx: c19Dir{2000, M, 1400}, DurS: 25},
 	}
+	// sessions closed while the bucket is empty, at rates where one closing notice is a large part of the allowance
+	base = append(base,
+		c19Scn{Sessions: 16, Conns: 1, Streams: 1, Link: "tls", Method: EncryptionMethodAES256GCM, Tx: c19Dir{2000, B, 100}, Rx: c19Dir{20000, I, 100}, DurS: 10},
+		c19Scn{Sessions: 32, Conns: 1, Streams: 1, Link: "msg", Method: EncryptionMethodChaha20Poly1305, Tx: c19Dir{1000, B, 100}, Rx: c19Dir{20000, I, 100}, DurS: 10},
+		c19Scn{Sessions: 4, Conns: 2, Streams: 1, Link: "tls", Method: EncryptionMethodAES128GCM, Tx: c19Dir{5000, B, 1400}, Rx: c19Dir{2000, I, 100}, DurS: 10},
+		c19Scn{Sessions: 9, Conns: 1, Streams: 1, Link: "tls", Method: EncryptionMethodAES256GCM, Tx: c19Dir{2000, B, 100}, Rx: c19Dir{20000, I, 100}, DurS: 12, Timeout: true},
+		// real parallelism into full buckets
+		c19Scn{Sessions: 4, Conns: 2, Streams: 1, Link: "tls", Method: EncryptionMethodAES256GCM, Tx: c19Dir{20000, "race", 0}, Rx: c19Dir{5000, "race", 0}, Race: 8, Rounds: 100},
+		c19Scn{Sessions: 4, Conns: 4, Streams: 1, Link: "tls", Method: EncryptionMethodChaha20Poly1305, Tx: c19Dir{2000, "race", 0}, Rx: c19Dir{20000, "race", 0}, Race: 16, Rounds: 100},
+		c19Scn{Sessions: 1, Conns: 2, Streams: 1, Link: "tls", Method: EncryptionMethodAES128GCM, Tx: c19Dir{5000, "race", 0}, Rx: c19Dir{2000, "race", 0}, Race: 2, Rounds: 100})
+	if thorough {
+		for i := range base {
+			if base[i].Race > 0 {
+				base[i].Rounds = 400
+			}
+		}
+	}
+	nfixed := len(base)
 	rng := kit.NewRng(seed)
 	rates := []int64{2000, 20000, 100000}
 	pats := []string{B, B, U, M}
@@ -512,7 +720,7 @@ func c19Scenarios(seed int64, thorough bool) []c19Scn {
 	if thorough {
 		extra, evBudget = 60, 25000
 	}
-	for len(base) < 9+extra {
+	for len(base) < nfixed+extra {
 		sc := c19Scn{Sessions: 1 + rng.Intn(3), Conns: 1 + rng.Intn(4), Streams: 1 + rng.Intn(3),
 			Link: []string{"tls", "msg"}[rng.Intn(2)], Method: byte(1 + rng.Intn(3)), DurS: 10 + rng.Intn(31)}
 		ti := rng.Intn(3)
@@ -542,7 +750,13 @@ func c19Sig(sc c19Scn) string {
 
 // c19Evaluate runs the scenario in its own bubble and applies the oracle.
 func c19Evaluate(t *testing.T, sc c19Scn) (out c19Outcome, tx, rx c19DirStats, fs []c19Finding) {
-	synctest.Test(t, func(t *testing.T) { out = c19RunScenario(sc) })
+	synctest.Test(t, func(t *testing.T) {
+		if sc.Race > 0 {
+			out = c19RunRace(sc)
+		} else {
+			out = c19RunScenario(sc)
+		}
+	})
 	if out.Err != "" {
 		return
 	}
